@@ -142,6 +142,48 @@ func native(value any) any {
 }
 
 /*
+Quotes a string as a JSON string literal (RFC 8259).
+Quotation mark, reverse solidus and control characters are escaped, everything else is written as is.
+Bytes which are not a valid UTF-8 encoding are replaced by U+FFFD.
+Parameters:
+  - str - string to quote
+
+Returns:
+  - JSON string literal.
+*/
+func quote(str string) string {
+	const hex = "0123456789abcdef"
+	var result strings.Builder
+	result.WriteByte('"')
+	for _, char := range str {
+		switch {
+		case char == '"':
+			result.WriteString(`\"`)
+		case char == '\\':
+			result.WriteString(`\\`)
+		case char == '\b':
+			result.WriteString(`\b`)
+		case char == '\f':
+			result.WriteString(`\f`)
+		case char == '\n':
+			result.WriteString(`\n`)
+		case char == '\r':
+			result.WriteString(`\r`)
+		case char == '\t':
+			result.WriteString(`\t`)
+		case char < 0x20:
+			result.WriteString(`\u00`)
+			result.WriteByte(hex[char>>4])
+			result.WriteByte(hex[char&0xf])
+		default:
+			result.WriteRune(char)
+		}
+	}
+	result.WriteByte('"')
+	return result.String()
+}
+
+/*
 Structure encapsulating a string value.
 Implements:
   - field.
@@ -191,7 +233,7 @@ Returns:
 */
 func (ego *atString) serialize() string {
 	val := ego.getVal().(string)
-	return strconv.Quote(val)
+	return quote(val)
 }
 
 /*
